@@ -258,4 +258,173 @@ theorem ginv_run {n : Node} (h : GInv n) (evs : List NEv) (hs : Supported n evs)
   | cons e evs ih =>
     simp only [Node.run, List.foldl_cons]
     exact ih (ginv_step h e hs.1) hs.2
+/-! ### recovery of a checkpoint value into a node that does not know the key -/
+
+theorem hsetAll_nil_wf {l : MHash} (hw : NMap.WF l) : (hsetAll [] l).1 = l := by
+  apply NMap.ext (wf_hsetAll NMap.wf_nil _) hw
+  intro f
+  rw [get_hsetAll_wf l hw]
+  cases NMap.get l f <;> rfl
+
+theorem keys_recovered (rs : Shard) (k : Nat) (v : RV) :
+    (rs.applyRecovered k v).keys = NMap.insert k v rs.keys := rfl
+
+theorem nodewf_recovered {rs : Shard} (k : Nat) (v : RV) (h : rs.NodeWF) (hv : v.WF) :
+    (rs.applyRecovered k v).NodeWF := by
+  refine ⟨h.1, fun p hp => ?_⟩
+  rw [keys_recovered] at hp
+  rcases NMap.mem_insert hp with hp | hp
+  · subst hp; exact hv
+  · exact h.2 p hp
+
+/-- in-range expiry of a live string (what `SET … PX` accepts) -/
+def ExpiryOk (v : RV) : Prop :=
+  match v.get, v.expiry with
+  | some _, some ms => 1 ≤ ms ∧ (ms : Int) ≤ i64Max
+  | _, _ => True
+
+instance (v : RV) : Decidable (ExpiryOk v) := by
+  unfold ExpiryOk; split <;> infer_instance
+
+theorem ok_recovered {s : State} {rs : Shard} (h : Ok s rs) (k : Nat) (v : RV)
+    (hk : NMap.get rs.keys k = none) (hv : v.WF) (he : ExpiryOk v) :
+    Ok (recoverExec s k v) (rs.applyRecovered k v) := by
+  have hsk : NMap.get s k = none := by rw [h.srv k, hk]; rfl
+  have hl : ∀ r, v.crdt = .lww r ∨ True → (match v.crdt with | .hash _ => False | _ => True) →
+      Ok (recoverStr s k v) (rs.applyRecovered k v) := by
+    intro r _ hnh
+    simp only [recoverStr]
+    cases hg : v.get with
+    | none =>
+      simp only
+      refine ⟨h.inv, h.nodead, nodewf_recovered k v h.wf hv, ?_⟩
+      rw [keys_recovered]
+      apply srvk_same h.srv
+      rw [hsk]
+      obtain ⟨crdt, vc, expiry, ts, rf⟩ := v
+      cases crdt with
+      | lww r' => simp only [RV.get] at hg; simp [matE, hg]
+      | hash hm => exact absurd hnh (by simp)
+      | gcounter c => rfl
+      | pncounter p n => rfl
+      | gset s => rfl
+      | orset e n => rfl
+    | some x =>
+      simp only [rematStr]
+      have hm : matE (some v) = some { val := .str x, dl := v.expiry } := by
+        obtain ⟨crdt, vc, expiry, ts, rf⟩ := v
+        cases crdt with
+        | lww r' => simp only [RV.get] at hg; simp [matE, hg]
+        | hash hm => exact absurd hnh (by simp)
+        | gcounter c => simp [RV.get] at hg
+        | pncounter p n => simp [RV.get] at hg
+        | gset s => simp [RV.get] at hg
+        | orset e n => simp [RV.get] at hg
+      cases hx : v.expiry with
+      | none =>
+        simp only
+        rw [execStep_of_nodead h.nodead, exec_setCmd]
+        refine ⟨inv_insert h.inv (valueOk_str x), nodead_insert h.nodead (live_none _),
+          nodewf_recovered k v h.wf hv, ?_⟩
+        rw [keys_recovered]
+        apply srvk_insert h.srv
+        rw [hm, hx]
+      | some ms =>
+        simp only
+        obtain ⟨h1, h2⟩ : 1 ≤ ms ∧ (ms : Int) ≤ i64Max := by
+          have := he; simp only [ExpiryOk, hg, hx] at this; exact this
+        rw [execStep_of_nodead h.nodead, exec_setPx s k x ms h1 h2]
+        refine ⟨inv_insert h.inv (valueOk_str x),
+          nodead_insert h.nodead ((live_some_iff _ ms).mpr (by omega)), nodewf_recovered k v h.wf hv, ?_⟩
+        rw [keys_recovered]
+        apply srvk_insert h.srv
+        rw [hm, hx]
+  cases hc : v.crdt with
+  | hash hm =>
+    simp only [recoverExec, hc]
+    have hwm : NMap.WF hm := by have := hv.1; rw [hc] at this; exact this
+    by_cases hle : (liveFields hm).isEmpty = true
+    · simp only [hle, if_true]
+      refine ⟨h.inv, h.nodead, nodewf_recovered k v h.wf hv, ?_⟩
+      rw [keys_recovered]
+      apply srvk_same h.srv
+      rw [hsk, matE_hash v hm hc, (isEmpty_eq_true_iff _).mp hle]
+      rfl
+    · have hlf : (liveFields hm).isEmpty = false := by simpa using hle
+      have hne : liveFields hm ≠ [] := fun hh => hle ((isEmpty_eq_true_iff _).mpr hh)
+      simp only [hlf, Bool.false_eq_true, if_false]
+      have hcell : NMap.get s k = cellEntry [] := hsk
+      rw [execStep_of_nodead h.nodead, hset_step hcell _ hne, hsetAll_nil_wf (wf_liveFields hwm)]
+      refine ⟨inv_putHash h.inv k (wf_liveFields hwm) none, nodead_putHash h.nodead k _,
+        nodewf_recovered k v h.wf hv, ?_⟩
+      rw [keys_recovered]
+      intro k'
+      rw [get_putHash h.inv.1, NMap.get_insert]
+      by_cases hkk : k' = k
+      · simp only [hkk, if_true]; rw [matE_hash v hm hc]
+      · simp only [hkk, if_false]; exact h.srv k'
+  | lww r => simpa only [recoverExec, hc] using hl r (Or.inr trivial) (by simp [hc])
+  | gcounter c => simpa only [recoverExec, hc] using hl default (Or.inr trivial) (by simp [hc])
+  | pncounter p n => simpa only [recoverExec, hc] using hl default (Or.inr trivial) (by simp [hc])
+  | gset s => simpa only [recoverExec, hc] using hl default (Or.inr trivial) (by simp [hc])
+  | orset e n => simpa only [recoverExec, hc] using hl default (Or.inr trivial) (by simp [hc])
+
+theorem recover_purge (s : State) (k : Nat) (v : RV) :
+    (recoverExec s k v = s ∧ recoverExec (purge s 0) k v = purge s 0) ∨
+    recoverExec s k v = recoverExec (purge s 0) k v := by
+  have hl : (recoverStr s k v = s ∧ recoverStr (purge s 0) k v = purge s 0) ∨
+      recoverStr s k v = recoverStr (purge s 0) k v := by
+    simp only [recoverStr]
+    cases v.get with
+    | none => left; exact ⟨rfl, rfl⟩
+    | some x =>
+      right
+      simp only [rematStr]
+      cases v.expiry <;> simp only [execStep_purge]
+  cases hc : v.crdt with
+  | hash h =>
+    simp only [recoverExec, hc]
+    cases (liveFields h).isEmpty with
+    | true => left; exact ⟨rfl, rfl⟩
+    | false => right; simp only [Bool.false_eq_true, if_false, execStep_purge]
+  | lww r => simpa only [recoverExec, hc] using hl
+  | gcounter c => simpa only [recoverExec, hc] using hl
+  | pncounter p n => simpa only [recoverExec, hc] using hl
+  | gset s => simpa only [recoverExec, hc] using hl
+  | orset e n => simpa only [recoverExec, hc] using hl
+
+/-- `ApplyRecoveredState` for a key the node does not know yet keeps the node invariant -/
+theorem ginv_recovered {n : Node} (h : GInv n) (k : Nat) (v : RV)
+    (hk : NMap.get n.rs.keys k = none) (hv : v.WF) (he : ExpiryOk v) : GInv (n.recovered k v) := by
+  have hOk := ok_recovered (ok_of_ginv h) k v hk hv he
+  simp only [Node.recovered]
+  rcases recover_purge n.exec k v with ⟨h1, h2⟩ | h1
+  · rw [h1]
+    rw [h2] at hOk
+    exact ginv_of_ok (view_purge n.exec 0).symm h.inv hOk
+  · rw [h1]
+    exact ginv_of_ok' hOk
+
+/-- a checkpoint: recovered values applied one after the other -/
+def recoverAll (n : Node) (kvs : List (Nat × RV)) : Node :=
+  kvs.foldl (fun n p => n.recovered p.1 p.2) n
+
+theorem ginv_recoverAll (kvs : List (Nat × RV)) : ∀ n : Node, GInv n →
+    (∀ p ∈ kvs, NMap.get n.rs.keys p.1 = none) → (kvs.map (·.1)).Nodup →
+    (∀ p ∈ kvs, p.2.WF ∧ ExpiryOk p.2) → GInv (recoverAll n kvs) := by
+  induction kvs with
+  | nil => intro n h _ _ _; exact h
+  | cons p kvs ih =>
+    intro n h hfresh hnd hok
+    simp only [recoverAll, List.foldl_cons]
+    simp only [List.map_cons, List.nodup_cons] at hnd
+    apply ih _ (ginv_recovered h p.1 p.2 (hfresh p (by simp)) (hok p (by simp)).1 (hok p (by simp)).2)
+    · intro q hq
+      simp only [Node.recovered, keys_recovered, NMap.get_insert]
+      have hne : q.1 ≠ p.1 := fun he => hnd.1 (by rw [← he]; exact List.mem_map_of_mem hq)
+      simp only [hne, if_false]
+      exact hfresh q (by simp [hq])
+    · exact hnd.2
+    · intro q hq; exact hok q (by simp [hq])
+
 end RedisVerif.Glue
